@@ -5,6 +5,7 @@ directly on the implementation's outputs.
 -/
 import Driver.Common
 import Sth.Model.Store
+import Sth.Model.Recover
 import Sth.Model.GC
 
 namespace Driver.Seq
@@ -101,7 +102,7 @@ def step (st : St) (l : Line) : St × List Msg :=
   | "open" =>
     let c : Cfg := { kind := if l.args.get "kind" = "cid" then .cid else .mh, bits := l.args.nat "bits",
                      ifs := l.args.nat "ifs", pfs := l.args.nat "pfs", imm := l.args.get "imm" = "1" }
-    let (d, r) := openStore c st.store.disk
+    let (d, r) := openStoreR c st.store.disk
     match r with
     | .ok m =>
       ({ st with store := { disk := d, mem := some m }, cfg := c, everOpened := true },
@@ -230,8 +231,8 @@ def step (st : St) (l : Line) : St × List Msg :=
         | none => (st, cmp "paths" "err:other" rhead)
         | some s' =>
           -- model-side: the snapshot path and the rescan path give the same table (checked here too)
-          let viaSnap := openStore st.cfg s'.disk
-          let viaScan := openStore st.cfg { s'.disk with snap := none }
+          let viaSnap := openStoreR st.cfg s'.disk
+          let viaScan := openStoreR st.cfg { s'.disk with snap := none }
           let nz := fun (b : NMap Nat) => b.filter (fun x => x.2 ≠ 0)
           let same : Bool := match viaSnap.2, viaScan.2 with
             | .ok a, .ok b => nz a.buckets == nz b.buckets
